@@ -302,8 +302,10 @@ func (fr *Frame) invoke(st *State, c *ssa.CallCommon, recv Val, args []Val, pos 
 		r.natives[key] = true
 		return nat(fr, st, append([]Val{recv}, args...), pos)
 	}
-	if v, ok := fr.objMetaInvoke(st, c, recv, args, pos); ok {
-		return v
+	if _, hasContract := r.eng.contracts[key]; !hasContract {
+		if v, ok := fr.objMetaInvoke(st, c, recv, args, pos); ok {
+			return v
+		}
 	}
 	if isClockMethod(c.Method) {
 		r.natives["clock: "+key] = true
